@@ -16,6 +16,7 @@ class Renderer:
     def __init__(self, P, use9=None):
         self.P = P  # list of nodes, 1-based indices in fields
         self.use9 = use9 if use9 is not None else any(n["t"] in ("cs", "pipe") for n in P)
+        self.in_cs = 0
 
     def nd(self, i):
         return self.P[i - 1]
@@ -117,17 +118,26 @@ class Renderer:
                     if j == 2 and pat == "w":
                         pat = "*"
                     term = [";;", ";&", ";;&"][(n["m"] // (3 ** j)) % 3]
-                    s += "\n%s)\n%s\n%s" % (pat, self.r(n[fld]), term)
+                    # inside $( ) the pattern is written `(pat)`: brush's command-substitution scanner does not
+                    # accept the unbalanced `pat)` form there (observed defect outside the listed properties, DESIGN.md 5)
+                    s += "\n%s%s)\n%s\n%s" % ("(" if self.in_cs else "", pat, self.r(n[fld]), term)
             return s + "\nesac"
         if t == "fn":
             return "f%d() {\n%s\n}\nf%d" % (i, self.r(n["a"]), i)
         if t == "eval":
             return "eval " + sq(self.r(n["a"]))
         if t == "cs":
-            return "V%d=$(\n%s\n)" % (i, self.r(n["a"]))
+            self.in_cs += 1
+            body = self.r(n["a"])
+            self.in_cs -= 1
+            return "V%d=$(\n%s\n)" % (i, body)
         if t == "pipe":
-            a = self.cmd(n["a"]) if n["a"] else "S %d" % n["n"]
-            b = self.cmd(n["b"]) if n["b"] else "S %d" % n["m"]
+            # a stage that is directly `eval ...` is wrapped in braces: bash 5.2 turns an errexit exit taken
+            # inside such a stage into status 1 (an accident of its eval/fork path, not a rule to model)
+            def stage(i):
+                return "{\n" + self.r(i) + "\n}" if self.nd(i)["t"] == "eval" else self.cmd(i)
+            a = stage(n["a"]) if n["a"] else "S %d" % n["n"]
+            b = stage(n["b"]) if n["b"] else "S %d" % n["m"]
             return a + " | " + b
         raise ValueError("unknown node " + t)
 
